@@ -5,12 +5,15 @@ use serde::{Deserialize, Serialize};
 use simcore::rng::Rng;
 
 /// SQL alphabet (index = `sql` field of the ops). `$n` placeholders: 0, 1, 1, 2.
-pub const SQLS: [&str; 5] = [
+pub const SQLS: [&str; 7] = [
     "SELECT 1",
     "SELECT $1",
     "SELECT $1 AS other",
     "UPDATE t SET a = $1 WHERE b = $2",
     "SELECT $1, $2, $3, $4, $5, $6",
+    // the same statements again as different texts (a cache key is the text as given)
+    "SELECT $1;",
+    " SELECT 1 ",
 ];
 /// Type-list alphabet (index = `types` field of the ops), as OIDs of built-in types.
 /// (the last two are long and differ in their first entry only)
@@ -172,7 +175,7 @@ pub const SLOTS: usize = 2;
 
 fn gen_key(rng: &mut Rng) -> (u8, u8) {
     // text 1 ("SELECT $1") dominates so that keys differing only in types are common
-    let sql = rng.weighted(&[2, 8, 1, 1, 2]) as u8;
+    let sql = rng.weighted(&[2, 8, 1, 1, 2, 2, 1]) as u8;
     let types = if sql == 4 { *rng.pick(&[0u8, 5, 5, 6, 6]) } else { rng.weighted(&[4, 3, 3, 1, 1, 1, 1]) as u8 };
     (sql, types)
 }
